@@ -604,11 +604,12 @@ FINDINGS = _build() + [
          example="{'alpha': {'typ': 'pkg.Kind', 'default': '```pkg.Kind.A```'}} through function(type_annotations=False, emit_as_kwonlyargs=True) four times"),
 ]
 FIXED = [
+    'fixed: property=C08 f4150fc Google style: the unindented continuation line moved into the header on round 1 and was re-flowed on round 2',
     'fixed: property=C08 fc46805 a string default containing a full stop was cut again on round 2 (doc-derived type paths)',
     'fixed: property=C08 26237d2 second round re-read the unescaped "say "hi"" prose default and raised SyntaxError',
     "fixed: property=C08 64ad734 function format, interface with an undocumented parameter (or a return entry): round 2 appended the text 'None' to the docstring header / return description ('Summary line.None'), growing every round",
 ]
 
 # patterns of defects that have since been repaired in the repository (see FIXED): no longer known findings
-FIXED_IDS = ['C08-double-quote-in-default-later-round-raises', 'C08-string-default-with-full-stop-keeps-shrinking']
+FIXED_IDS = ['C08-double-quote-in-default-later-round-raises', 'C08-google-multiline-description-header-reflows', 'C08-string-default-with-full-stop-keeps-shrinking']
 FINDINGS = [f for f in FINDINGS if f["id"] not in FIXED_IDS]
